@@ -102,7 +102,7 @@ class Check:
 
     def build_coq(self, targets):
         """Incremental build of the given .vo targets. Returns (ok, log)."""
-        lk = self._locked("coq")
+        lk = self._locked("coq_py")
         try:
             p = subprocess.run(["make", "-C", ROOT, "--no-print-directory", "coq-only",
                                 "T=" + " ".join(targets)],
@@ -111,10 +111,11 @@ class Check:
         finally:
             lk.close()
 
-    def build_harness(self):
-        lk = self._locked("go")
+    def build_harness(self, name=None):
+        lk = self._locked("go_py")
         try:
-            p = subprocess.run(["make", "-C", ROOT, "--no-print-directory", "harness"],
+            p = subprocess.run(["make", "-C", ROOT, "--no-print-directory", "harness",
+                                "P=" + (name or self.pid.lower())],
                                stdout=subprocess.PIPE, stderr=subprocess.STDOUT, text=True, env=ENV)
             if p.returncode != 0:
                 raise RuntimeError("go build of the harness failed (does /repo compile?):\n" + p.stdout)
@@ -158,10 +159,10 @@ class Check:
         return True
 
     # ---- implementation side
-    def run_go(self, runner, cases, timeout=1800):
+    def run_go(self, runner, cases, timeout=1800, binary=None):
         """cases: list of JSON-serialisable values. Returns list of outcome dicts."""
         data = "\n".join(json.dumps(c, separators=(",", ":")) for c in cases) + "\n"
-        p = subprocess.run([os.path.join(BUILD, "harness"), runner], input=data,
+        p = subprocess.run([os.path.join(BUILD, "harness_" + (binary or self.pid.lower())), runner], input=data,
                            stdout=subprocess.PIPE, stderr=subprocess.PIPE, text=True,
                            timeout=timeout, env=ENV)
         if p.returncode != 0:
